@@ -541,9 +541,26 @@ class BasicContiguousVector<cntgs::Options<Option...>, Parameter...>
         clear();
         deallocate_locator();
         max_element_count_ = {};
+        // like a moved-from vector: no address table and no end pointer into the block that is given up below
+        [[maybe_unused]] const auto released_locator = std::move(*locator_);
         memory_ = other.memory_;
+        // the address table is allocated next: if that fails the new block is given back, the vector stays empty
+        struct ReleaseBlock
+        {
+            StorageType& memory_;
+            bool is_active_{true};
+
+            ~ReleaseBlock() noexcept
+            {
+                if (is_active_)
+                {
+                    memory_.reset(StorageType{nullptr, 0, memory_.get_allocator()});
+                }
+            }
+        } release_block{memory_};
         ElementLocatorAndFixedSizes other_locator{other.locator_, other.memory_begin(),     other.max_element_count_,
                                                   memory_begin(), other.max_element_count_, get_allocator()};
+        release_block.is_active_ = false;
         BasicContiguousVector::insert_into(*other_locator, other.max_element_count_, memory_, other);
         max_element_count_ = other.max_element_count_;
         locator_ = std::move(other_locator);
